@@ -258,7 +258,7 @@ package decode
 //@   timeout 240
 //@   per-return
 //@   needs metadata
-//@   at call decode.printer assert [C11.operand.palette] (=> (= arg1 (strlit "    RGBA %02x%02x%02x%02x\n")) (and (= (at arg2 (int 0)) (ifaceas uint8 (color.RGBA.R (spec.sanitize c)))) (= (at arg2 (int 3)) (ifaceas uint8 (color.RGBA.A (spec.sanitize c))))))
+//@   at call decode.printer assert [C11.operand.palette] (and (bvsle (int 0) phi:i) (= (len arg2) (int 4)) (= (at arg2 (int 0)) (ifaceas uint8 (color.RGBA.R (spec.sanitize c)))) (= (at arg2 (int 1)) (ifaceas uint8 (color.RGBA.G (spec.sanitize c)))) (= (at arg2 (int 2)) (ifaceas uint8 (color.RGBA.B (spec.sanitize c)))) (= (at arg2 (int 3)) (ifaceas uint8 (color.RGBA.A (spec.sanitize c)))))
 //@   at call decode.printer assert [C11.hex.le4 C02.hex.le4] (bvule (len arg0) (int 4))
 //@   at call decode.printer assert [C11.bytes.region] (or (= (len arg0) (int 0)) (and (= (rgn arg0) (rgn src@0)) (bvule (off src@0) (off arg0)) (bvule (bvadd (off arg0) (len arg0)) (bvadd (off src@0) (len src@0)))))
 //@   modifies *m tr.decode.printer
